@@ -236,6 +236,50 @@ props["C20"]["manifest"] = {
     "technique": "metamorphic run (plain vs monadic at the identity instance) + Lean reference semantics and machine mirror as third and fourth opinion + Lean theorem on the identity-instance translation of ZCore",
 }
 
+SPS_STREAMS = ("every executable repository program (all .zy/.zydeco sources that check accepts and the interpreter's linker takes; stdin `7\\nhello world\\n42\\n`, argv one two); generated programs of the typed core language (zcore.rs: closures capturing values of every type, nested continuations, recursive data, codata dispatch with multi-parameter destructors, fix, products of every arity and grouping; 600 quick / 20,000 thorough, each also printed with multi-parameter abstractions and copattern spines); token- and line-level mutants (same-shape token replacement, identifier to wildcard and back, arm swap / drop / duplication, literal replacement, token deletion / duplication / swap; 24 quick / 400 thorough per fixture) of the 100 fixtures under lib/tests/{compile,compile-more,exec,pack} that check still accepts, analysed as overlays next to the original; 16 hand-written probes of what the generator cannot produce (polymorphic functions and existential packages over products, constructor patterns in let / fn / do binders and nested in arms, wildcard and variable arms, host callbacks, argument fold, standard input)")
+SPS_TB = [KERNEL, AXIOMS, HARNESS,
+          "the serialiser harness/src/spsser.rs (walks SpsLowProgram's public arena from its root; a node reached twice is reported)",
+          "modelled, not verified: the first-order language of lang/stackir/src/sps_low/syntax.rs has no executable semantics in the repository (lang/assembly/src/interp.rs leaves extern calls, intrinsics and context allocation as todo!()); ZV/Model/SpsLow.lean defines one from the syntax's doc comments, convert.rs, assembly/src/lower.rs (stack discipline, flat product layout with spliced suffix) and amd64/src/emit.rs (extern calling convention: arity arguments popped first-argument-first, Returning = result to the continuation on top of the stack, Control = host-selected closure entered with the host's arguments); host operations are ZV/Model/Host.lean (C06), shared with the interpreter model",
+          "NOT modelled: sps/lower.rs, sps_low/convert.rs, assembly lowering, stack analysis, unboxing, the emitters: no theorem says anything about them; they are exercised, not verified"]
+
+props["C19"] = {
+    "harness": "c19",
+    "harness_args": ["--only", "c19"],
+    "level": "other",
+    "model_oracle_prefixes": ["sps run "],
+    "nontrivial": r"^sps run ",
+    "timeout": {"quick": 1500, "thorough": 14400},
+    "rule": "inputs: " + SPS_STREAMS + ". Each accepted executable is run by the real interpreter (zydeco_dynamics::Runtime, one public Eval::step at a time) and lowered by the real compiler (BackendProgram::lower; when a later stage fails, BuiltinRootLowerer + SpsLowPipeline on their own); the produced SpsLowProgram is serialised and run by the Lean reference machine of the first-order stack-passing language with the same stdin / argv and the same host-operation model; expected answer = the interpreter's end (exit code, trap, return) and output bytes. A model answer `stuck:<kind>` means the lowered program reaches an undefined state of the intermediate language (e.g. `stuck:layout`: a product with a number of fields its consumer's layout does not say), any other different answer means it computes something else. Runs that do not finish within the interpreter's step budget, programs containing a hole and runs using operations whose value the model does not determine (random_int, float to_string) are recorded, not compared. The third column of a case carries the source (or repository path) the request was produced from.",
+    "explanation": "Behaviour preservation is decided by running, not proved: the lowering passes are not mirrored in Lean. Kernel-checked is what the comparison rests on: the reference machine is a function and its result does not depend on the step bound (so `the` behaviour of a lowered program is well defined), and a program satisfying the first-order invariants never looks up a missing code address or variable (so such an answer on a compiler-produced program is a violated invariant, not a machine artefact). The machine agrees with the interpreter on every executable repository program and every generated program; on the unchanged tree it disagrees exactly on polymorphic code over products (see findings).",
+    "trusted_base": SPS_TB,
+    "assumptions": ["native execution (nasm + runtime crate) is not available offline: the reference machine, not the emitted machine code, stands for the lowered program's behaviour; assembly lowering and the emitters are covered by C18's structural checks only",
+                    "the reference semantics chooses the first matching arm of a coproduct match and matches constructor patterns at any depth (what the interpreter does); assembly lowering supports less (C18 findings)"],
+}
+props["C19"]["manifest"] = {
+    "text": "Every accepted executable (repository programs, 600 / 20,000 generated typed core programs in two spellings, accepted mutants of 100 fixtures, hand-written probes) is run by the real interpreter and, after the real lowering to first-order stack-passing form, by a Lean reference machine of that intermediate language with the same host-operation model; exit code / trap and output bytes must agree. The machine's determinism, fuel-independence and freedom from lookup failures on valid programs are Lean theorems; the lowering itself is not modelled. Finding on the pinned tree: flat product layouts are chosen per site from the static type and are not stable under type instantiation, so polymorphic code over `A * B` with B instantiated to a product reads the wrong field.",
+    "note": "Level `other`: differential search against a reference semantics I defined for an IR that has none in the repository; theorems cover the reference machine only. Trusted: harness + serialiser, the reading of the IR's semantics (cross-checked against assembly lowering and the amd64 emitter's calling convention, and by agreement with the interpreter on ~2,400 programs per quick run).",
+    "technique": "Lean reference machine for the compiler IR + differential execution against the source interpreter on corpus, generated programs, accepted fixture mutants and probes",
+}
+
+props["C18"] = {
+    "harness": "c19",
+    "harness_args": ["--only", "c18"],
+    "level": "other",
+    "model_oracle_prefixes": ["sps validate "],
+    "nontrivial": r"^sps validate ",
+    "timeout": {"quick": 1500, "thorough": 14400},
+    "rule": "inputs: " + SPS_STREAMS + ". For every accepted program the interpreter's linker takes, BackendProgram::lower, render_sps_low, render_assembly (every corpus / mutant / probe program, every third mutant, every tenth generated program: the annotated listing is by far the slowest stage), emit_amd64 and emit_llvm run under catch_unwind: a panic or an error other than the LLVM emitter's declared LlvmUnsupportedLocal limit is a violation carrying the source. The produced first-order program is re-validated by the Lean validator through the driver (`sps validate` must answer `valid`: unique labels, closed root, no implicit capture, joins only at coproduct branches) and, in Rust, checked for one lexical occurrence per node and product layouts (arity > 0, arity >= items, one field class per word); the assembly program is checked independently of the repository's own checks: root, every successor / jump / branch target and every symbol pushed as code is a defined program, no symbol is left Undefined, every extern call is declared, one label per labelled program, product layouts have elements >= 1 and arity >= elements.",
+    "explanation": "Totality of ~6,000 lines of backend Rust is not a theorem about a model; it is decided by search with the panic / error oracle. Kernel-checked: the validator run on every produced program decides exactly the invariants sps_low/check.rs states, over an independent free-variable specification (validate_iff_invariants, scope_iff_free), and these invariants are what the reference machine needs never to look up a missing code address or variable (validated_no_lookup_failure, validated_block_lookup).",
+    "trusted_base": SPS_TB,
+    "assumptions": ["stack overflow / allocation failure abort the process and are reported as harness crashes, not caught",
+                    "LLVM: `where supported` is read as the emitter's own validate_llvm_locals guard; on the pinned tree the guard rejects every program that binds the Builtin package (input_distribution.*_llvm_unsupported-local), so LLVM text is never produced for an executable"],
+}
+props["C18"]["manifest"] = {
+    "text": "Every accepted executable of four streams (repository programs, generated typed core programs, accepted mutants of 100 fixtures, probes) goes through BackendProgram::lower, both renderers and both emitters under catch_unwind; the first-order program is re-validated by a Lean validator proved to decide exactly the stated invariants, and the assembly program is checked for defined targets / symbols, unique labels and product layouts independently of the repository's checks. Findings on the pinned tree: assembly lowering panics on accepted programs with a constructor pattern anywhere but the top of a match arm (let / fn / do binder, nested pattern) and on matches with a wildcard or variable arm next to constructor arms.",
+    "note": "Level `other`: failing-input search with exact oracles plus kernel-checked validator theorems. Trusted: harness, catch_unwind catching every panic.",
+    "technique": "failing-input search (generated programs, accepted fixture mutants, probes) with panic / internal-error oracle + Lean validator with soundness theorems + independent structural checks of the assembly arena",
+}
+
 props["C16"] = {
     "harness": "c16",
     "level": "other",
